@@ -73,6 +73,7 @@ def main():
     except Exception as e:      # a harness stream that cannot run is "no longer shown", never silence
         errors.append("harness stream failed: " + "".join(traceback.format_exception_only(type(e), e)).strip()[:300])
         lib.save_log("harness-" + prop, traceback.format_exc())
+    for n in lib.TRANSLATOR_NOTES: out.notes.append("translator: " + n + " (placeholder emitted; what depends on it no longer checks)")
     known = lib.load_known_findings(prop)
     new_failing = []; n_fail = len(out.failing); n_dis = len(out.disagreements)
     for f in [f for f in out.failing if f]:
